@@ -236,7 +236,7 @@ SYMPY_NAMES = {"re": _sympy_re_im("re"), "im": _sympy_re_im("im")}
 def _b_complex(ex, ctx, args, kw):
     x = ex.unopt(args[0], ctx)
     if z3.is_expr(x) and x.sort() == M.Val:
-        assumed("complex(x)", "complex(x) of a finite SymPy number is that number; of a symbolic value it raises TypeError")
+        assumed("complex(x)", "complex(x) of a finite SymPy number is that number; of a symbolic value it raises TypeError (known exception: (-1)**(x + oo), finding D30)")
         res = []
         ok = M.v_kind(x) != M.SYMB
         if ex.feasible(ctx, ok):
